@@ -15,6 +15,8 @@ EPS = 2.0 ** -52
 def lift(v):
     if isinstance(v, Q):
         return v
+    if isinstance(v, np.ndarray) and v.size == 1:
+        v = v.reshape(-1)[0]
     if isinstance(v, (np.generic,)):
         v = v.item()
     return Q(v)
@@ -44,6 +46,8 @@ class Cmp:
             self.exact_agreements += 1
             return True
         try:
+            if isinstance(got, np.ndarray) and got.size == 1:
+                got = got.reshape(-1)[0]
             g = float(got)
         except Exception:
             return False
